@@ -1,4 +1,5 @@
 import DefraModel.Crdt.Model
+import DefraModel.Crdt.Versioned
 open Defra Defra.Crdt
 
 namespace Driver.Crdt
@@ -40,6 +41,17 @@ def showView (s : DocState) : String :=
   let vs := if vals.isEmpty then "-" else ",".intercalate vals
   let fhs := if fh.isEmpty then "-" else ";".intercalate fh
   s!"del={del} vals={vs} heads={showLabels s.heads} fheads={fhs}"
+
+def showVals (v : Vals) : String :=
+  let del := match v.marker with | none => "-" | some false => "0" | some true => "1"
+  let vals := fieldOrder.filterMap (fun f =>
+    match v.lww f with
+    | some (_, x) => if x == cborNil then none else some s!"{f}:{Bytes.render x}"
+    | none => match v.ctr f with
+      | some i => some s!"{f}:{i}"
+      | none => none)
+  let vs := if vals.isEmpty then "-" else ",".intercalate vals
+  s!"del={del} vals={vs}"
 
 /-- the comparable projection of a state (what `showView` prints) for mirror-vs-spec comparison -/
 def specAgrees (w : World) (r : Nat) (d : String) : Bool :=
@@ -156,6 +168,15 @@ def step (w : World) (toks : List String) : World × String :=
   | ["view", r, doc] =>
     match r.toNat? with
     | some r => (w, viewLine w r doc)
+    | none => (w, "bad-op")
+  | ["sub", _, doc, l] | ["at", _, doc, l] =>
+    match parseLabel l with
+    | some id =>
+      -- mirror of the versioned fetcher, and the spec canon(closure of the commit)
+      let v := versionedVals w.blocks id
+      let spec := (canon w.blocks doc (closeUnder w.blocks id [])).vals
+      let out := showVals v
+      (w, if out == showVals spec then out else out ++ " SPEC-DIFFERS:" ++ showVals spec)
     | none => (w, "bad-op")
   | ["noop", _, _] => (w, "err")
   | ["quiescent"] => (w, "ok")
